@@ -30,7 +30,7 @@ def _rel(a, b, tol=1e-9):
 class C06A(Machine):
     name = "c06a"
     property_id = "C06"
-    runs = {"quick": 2500, "thorough": 250000}
+    runs = {"quick": 2500, "thorough": 100000}
     batch = 50
     rule = ("seeded pool of trees, 1-5 shards with identical settings, 5-40 add/merge/query steps; distinct = (partition of "
             "the pool into shards, merge sequence) with >=2 non-empty shards merged or an empty shard merged")
@@ -53,7 +53,7 @@ class C06A(Machine):
         node_ages = is_rooted is True and rng.random() < 0.35
         lengths = "dyadic" if (node_ages or rng.random() < 0.7) else rng.choice(["none", "mixed_none"])
         pool = []
-        for _ in range(rng.randint(2, 12)):
+        for _ in range(rng.randint(2, 24 if tier == "thorough" else 12)):
             if node_ages:
                 spec = gen.ultrametric_spec(rng, labs)
             else:
@@ -71,7 +71,7 @@ class C06A(Machine):
         merges = ["update", "update", "extend", "iadd", "add"]
         queries = ["len", "freqs", "consensus", "mcct", "msct", "scores", "topologies", "bitmask_set_freqs", "restore",
                    "summarize", "bipartition_freqs"]
-        for _ in range(rng.randint(5, 40)):
+        for _ in range(rng.randint(5, 90 if tier == "thorough" else 40)):
             r = rng.random()
             if r < 0.5:
                 how = rng.choice(adds)
@@ -156,6 +156,9 @@ class C06A(Machine):
                 a = st["dst"] % nshards
                 b = st["src"] % nshards
                 how = st["how"]
+                if len(model[a]) + len(model[b]) > 64:
+                    rec.ev("merge_skipped_size_cap")
+                    continue        # merges double the content; keep collections small
                 src_empty = len(model[b]) == 0
                 dst_empty = len(model[a]) == 0
                 try:
